@@ -86,6 +86,13 @@ ObsHash(ty, a, h) ==
   /\ hseen' = hseen \cup {<<ty, e, h>>}
   /\ obs' = [k |-> "hash"] /\ UNCHANGED reg
 
+\* ---- the square-root-of-ratio routine (C09): any result meeting the four-case contract ----
+SqrtRatioCall(impl, num, den, flag, y) ==
+  /\ impl \in Forms /\ flag \in BOOLEAN
+  /\ NLess(num, P) /\ NLess(den, P) /\ NLess(y, P)
+  /\ SqrtRatioOK(num, den, flag, y)
+  /\ obs' = [k |-> "sqrt"] /\ UNCHANGED <<reg, hseen>>
+
 \* ---- composite calls (C01): encode-then-decode and decode-then-encode as one step ----
 \* compress a register, decompress the bytes into dst, compare with the original
 RoundTrip(encform, entry, a, dst) ==
